@@ -258,22 +258,30 @@ def gen_rows_custom(rng, m):
 def gen_wide_roll(rng, width):
     """Roll widths beyond 2^12 / 10^4 / 2^14: the knapsack table has 100 * width cells.  Zero-waste constructions (pairs a + (W - a),
     a + a + (W - 2a), triples a + b + (W - a - b)) so the optimum is the area bound."""
-    style = rng.choice(["pair", "pair", "double", "triple"])
+    # zero-waste patterns with several pieces are the ones any coarsening of the DP grid loses first
+    style = rng.choice(["pair", "double", "double", "triple", "3+1", "3+1", "2+1+1", "2+1+1"])
     if style == "pair":
         a = rng.randint(width // 3 + 1, width // 2 - 1)
         sizes, pat = [a, width - a], (1, 1)
     elif style == "double":
         a = rng.randint(width // 4 + 1, width // 3 - 1)
         sizes, pat = [a, width - 2 * a], (2, 1)
+    elif style == "3+1":
+        a = rng.randint(width // 5 + 1, width // 4 - 1)
+        sizes, pat = [a, width - 3 * a], (3, 1)
+    elif style == "2+1+1":
+        a = rng.randint(width // 5 + 1, width // 4 - 1)
+        b = rng.randint(width // 5 + 1, width // 4 - 1)
+        sizes, pat = [a, b, width - 2 * a - b], (2, 1, 1)
     else:
         a = rng.randint(width // 4 + 1, width // 3 - 1)
         b = rng.randint(width // 4 + 1, width // 3 - 1)
         sizes, pat = [a, b, width - a - b], (1, 1, 1)
     c = rng.randint(1, 3)
     demands = [c * k for k in pat]
-    solver = rng.choice(["cg", "bp"])
+    solver = rng.choice(["cg", "cg", "cg", "bp"])
     return {"kind": "cs", "solver": solver, "sizes": sizes, "width": width, "demands": demands, "max_iter": 30, "max_nodes": 20,
-            "opt_known": c, "family": "work_wide_roll", "no_coq": True, "work": True, "timeout": 120}
+            "opt_known": c, "family": "work_wide_roll", "no_coq": True, "work": True, "timeout": 300}
 
 
 def gen_lazy_cg(rng, K, max_iter, rows=1):
@@ -285,7 +293,7 @@ def gen_lazy_cg(rng, K, max_iter, rows=1):
     solver = rng.choice(["cg", "bp"])
     return {"kind": "custom", "solver": solver, "columns": [list(c) for c in cols], "init": [list(c) for c in init], "demands": demands,
             "max_iter": max_iter, "max_nodes": 20, "opt_known": sum(-(-d // K) for d in demands), "init_opt_known": sum(demands),
-            "form": {"pricing": "lazy"}, "family": "work_cg_iterations", "no_coq": True, "work": True, "timeout": 120}
+            "form": {"pricing": "lazy"}, "family": "work_cg_iterations", "no_coq": True, "work": True, "timeout": 300}
 
 
 DEEP_TREES = [   # found by search: branch-and-price trees of thousands of nodes on tiny inputs (pricing ignores the branching rows)
@@ -389,8 +397,11 @@ def extra_cases(ctx: Ctx):
     cases.append(gen_perfect_cs(rng, n=rng.choice([17, 24]), width=rng.choice([60, 101]), mags=[3, 10, 257], family="size") | {"no_coq": True})
     # W (round 3): every loop pushed past 2^7 / 2^10 / 2^12 / 10^4 iterations where affordable
     heavy = []
-    for w in [4097, 8193, rng.randint(10001, 11000), rng.randint(11001, 14000), rng.randint(14001, 17000), rng.choice([16000, 16385, 12345]),
-              rng.randint(17001, 20001)] + ([rng.randint(20001, 33000), 32771] if thorough else []):
+    widths = [4097, rng.randint(4098, 8192), rng.randint(8193, 10000)] + [rng.randint(10001, 20001) for _ in range(9)]
+    widths += [rng.choice([16000, 16385, 12345, 10001]), rng.randint(10001, 12000), rng.randint(16385, 20001)]
+    if thorough:
+        widths += [rng.randint(20001, 33000), 32771] + [rng.randint(10001, 20001) for _ in range(12)]
+    for w in widths:
         heavy.append(gen_wide_roll(rng, w))
     heavy.append(gen_unit_capacity(rng, 257) | {"work": True, "family": "work_knapsack_passes", "timeout": 120})
     heavy.append(gen_lazy_cg(rng, 140, 129, rows=2))              # cut short at 2^7 + 1 iterations
@@ -752,6 +763,9 @@ def run_part(ctx: Ctx):
     # ---- X: non-finite arguments are outside C17's quantifier (integers): observed only
     for name, res in _nonfinite_probes():
         ctx.count("nonfinite_probe", f"{name}: {res}")
+        ctx.count("observation_only", "NaN / inf argument")
+    ctx.notes.append("observation-only classes (outside C17's quantifier of finite integer data, POLICY_X): NaN / inf arguments; demands whose optimum "
+                     "exceeds 2^20 on the float tableau - run, classified in histograms, never judged")
 
     # ---- H: event-directed search over solve_bp's internals (hill climb from the seeds towards events not seen yet)
     seeds = [gen_tree_cs(rng) for _ in range(60)] + [gen_dup_dominant(rng) for _ in range(2500 * (3 if thorough else 1))]
